@@ -94,6 +94,10 @@ bool Instance::parse_input_transaction(const char* txdata, int select_index) {
                 return false;
             }
         }
+        if (txin_vout_index < 0 || (size_t)txin_vout_index >= txin->vout.size()) {
+            fprintf(stderr, "error: input %" PRId64 " of the transaction spends output %" PRId64 " of the input transaction, which has %zu outputs\n", txin_index, txin_vout_index, txin->vout.size());
+            return false;
+        }
     }
     return true;
 }
@@ -439,6 +443,10 @@ bool Instance::configure_tx_txin() {
                 return false;
             }
             // pushval = HASH160(scriptSig)
+            if (pushval.size() != 20) {
+                fprintf(stderr, "unknown/non-standard script pub key (expected a 20 byte hash after OP_HASH160, got %zu bytes)\n", pushval.size());
+                return false;
+            }
             hashsrc.do_hash160();
             if (uint160(hashsrc.data_value()) != uint160(pushval)) {
                 fprintf(stderr, "scriptSig hash does not match the script pub key hash:\n"
